@@ -16,7 +16,9 @@ for d in sorted(Path("/verif/seeded").iterdir(), key=lambda p: (p.name.split("-"
     kind = "caught" 
     if "initially" in det or "first run" in det:
         kind = "strengthened → caught"
-    rows.append("| %s | %s | %s | %s |" % (d.name, breaks.replace("|", "\\|")[:230], kind, det.replace("|", "\\|")[:330]))
+    rows.append((x.get("round", 1), "| %s | %s | %s | %s |" % (d.name, breaks.replace("|", "\\|")[:230], kind, det.replace("|", "\\|")[:330])))
+import sys
+want = int(sys.argv[1]) if len(sys.argv) > 1 else None
 print("| Seed | Change | Result | How |")
 print("|------|--------|--------|-----|")
-print("\n".join(rows))
+print("\n".join(r for (rd, r) in rows if want is None or rd == want))
